@@ -225,6 +225,21 @@ impl Disk {
         crate::exec::block_on(fut)
     }
 
+    /// A `Storage` over these files opened with `overwrite = true` (wipes what is there).
+    pub async fn storage_overwrite_async(&self) -> Result<Storage, hypercore::HypercoreError> {
+        let ctl = self.0.clone();
+        Storage::open(
+            move |store: Store| {
+                let ctl = ctl.clone();
+                Box::pin(async move {
+                    Ok(Box::new(Ra { ctl, s: store_idx(&store) }) as Box<dyn StorageTraits + Send>)
+                })
+            },
+            true,
+        )
+        .await
+    }
+
     /// Async variant for use inside the C15 scheduler.
     pub async fn storage_async(&self) -> Result<Storage, hypercore::HypercoreError> {
         let ctl = self.0.clone();
